@@ -137,6 +137,31 @@ def corner_scenarios():
         for k in range(1, n + 1):
             h.append(dict(a, f="s%d" % k))
     out.append(scenario(len(out), "corner-faults", h, 0))
+    # reference lists with several entries: removing the first / a middle / the last entry with every store fault
+    # (the rollback has to restore the list exactly), then really removing them in every position
+    wide = [op("pl.create", id="p1", name="n1", cfg="k0"),
+            op("cn.create", id="c1", t="p1", cfg="k0", plug="pa", typ="src"),
+            op("cn.create", id="c2", t="p1", cfg="k0", plug="pa", typ="dst"),
+            op("cn.create", id="c3", t="p1", cfg="k0", plug="pa", typ="dst")]
+    wide += [op("pr.create", id="r%d" % k, t="c1", cfg="k0", plug="fa", typ="connector") for k in (1, 2, 3)]
+    wide += [op("pr.create", id="r%d" % k, t="p1", cfg="k0", plug="fa", typ="pipeline") for k in (4, 5, 6)]
+    for order in (("r1", "r2", "r3", "r4", "r5", "r6", "c2", "c3", "c1"), ("r2", "r3", "r1", "r5", "r6", "r4", "c3", "c1", "c2"),
+                  ("r3", "r1", "r2", "r6", "r4", "r5", "c1", "c2", "c3")):
+        h = list(wide)
+        for target in order:
+            kind = "pr.delete" if target.startswith("r") else "cn.delete"
+            # every entry of every list, with every fault, while the lists are still full
+            for t2 in order:
+                if (t2[0] == target[0]) and t2 in [x for x in order[order.index(target):]]:
+                    k2 = "pr.delete" if t2.startswith("r") else "cn.delete"
+                    if k2 == "cn.delete" and t2 == "c1" and any(x in order[order.index(target):] for x in ("r1", "r2", "r3")):
+                        continue   # c1 still has processors: the delete is refused, no store operation to fail
+                    for k in range(1, 5):
+                        h.append(op(k2, t=t2, f="s%d" % k))
+            if kind == "cn.delete" and target == "c1" and any(x in order[order.index(target) + 1:] for x in ("r1", "r2", "r3")):
+                continue
+            h.append(op(kind, t=target))
+        out.append(scenario(len(out), "corner-lists", h, 0))
     return out
 
 
